@@ -386,4 +386,50 @@ def invloopCore (table : List Nat) (resetPos : Bool) (st : InvState) (lps len : 
 def invloopStep (table : List Nat) (resetPos : Bool) (st : InvState) (x : Option InvSample) : InvState × Option Int :=
   invloopCore table resetPos st (invRange x).1 (invRange x).2 (invCanStore x)
 
+/-! ### the same function with the fields' declared C types
+
+`xc->invloop.{speed,count,pos}` are C integers of some width; the loop bounds are `int`.  `invloopCoreW` is
+`update_invloop` with every store into those fields truncated to the field's type (the conversion gcc/clang
+perform: reduction modulo 2^bits).  `XmpProps.C15` proves that with the *generated* field types it coincides with
+the unbounded `invloopCore` on every reachable state — which needs the position field to hold every loop length. -/
+
+/-- a C integer type -/
+structure CInt where
+  bits : Nat
+  signed : Bool
+  deriving Repr, DecidableEq
+
+def CInt.max (t : CInt) : Int := if t.signed then 2 ^ (t.bits - 1) - 1 else 2 ^ t.bits - 1
+def CInt.min (t : CInt) : Int := if t.signed then -(2 ^ (t.bits - 1)) else 0
+
+/-- conversion of `v` to type `t` -/
+def CInt.wrap (t : CInt) (v : Int) : Int :=
+  let r := v % (2 ^ t.bits : Int)
+  if t.signed && decide (r > t.max) then r - 2 ^ t.bits else r
+
+/-- types of `xc->invloop.count` and `xc->invloop.pos` -/
+structure InvWidths where
+  count : CInt
+  pos : CInt
+  deriving Repr, DecidableEq
+
+def invloopCoreW (w : InvWidths) (table : List Nat) (resetPos : Bool) (st : InvState) (lps len : Int) (canStore : Bool) :
+    InvState × Option Int :=
+  let pos0 : Int := if resetPos then 0 else st.pos
+  -- `xc->invloop.count += invloop_table[xc->invloop.speed];`
+  let count : Int := w.count.wrap (st.count + (table.getD st.speed 0 : Nat))
+  if count ≥ 128 then
+    if len < 0 then ({ st with count := 0, pos := pos0 }, none)
+    else
+      -- `if (++xc->invloop.pos >= len) xc->invloop.pos = 0;`  (the incremented value is stored, then compared)
+      let p1 : Int := w.pos.wrap (pos0 + 1)
+      let pos : Int := if p1 ≥ len then 0 else p1
+      ({ st with count := 0, pos := pos }, if canStore then some (lps + pos) else none)
+  else ({ st with count := count, pos := pos0 }, none)
+
+def invloopStepW (w : InvWidths) (table : List Nat) (resetPos : Bool) (st : InvState) (x : Option InvSample) :
+    InvState × Option Int :=
+  invloopCoreW w table resetPos st (invRange x).1 (invRange x).2 (invCanStore x)
+
+
 end Xmp.Wrap
